@@ -160,6 +160,34 @@ func Accel(t *rapid.T, cfg Cfg) *ast.Node {
 			}
 			return ast.Seq(ast.Group(ast.GNon, a), tail())
 		}
+		if rapid.IntRange(0, 3).Draw(t, "runalt") == 0 {
+			// branches that are runs of one character of different (fixed or bounded) lengths, in drawn order,
+			// optionally after a leading loop: what all branches share is the shortest run, wherever it stands
+			ch := rapid.SampledFrom(accelLetters).Draw(t, "runch")
+			n := rapid.IntRange(3, 4).Draw(t, "nrun")
+			for i := 0; i < n; i++ {
+				k := rapid.IntRange(1, 3).Draw(t, "runlen")
+				var b *ast.Node
+				if rapid.IntRange(0, 2).Draw(t, "runloop") == 0 {
+					b = ast.Quant(ast.Lit(ch), k, k+rapid.IntRange(0, 1).Draw(t, "runspan"), false)
+				} else {
+					r := make([]rune, k)
+					for j := range r {
+						r[j] = ch
+					}
+					b = ast.Lit(r...)
+				}
+				if rapid.Bool().Draw(t, "runtail") {
+					b = ast.Seq(b, ws(0))
+				}
+				a.Kids = append(a.Kids, b)
+			}
+			body := ast.Seq(ast.Group(ast.GNon, a), tail())
+			if rapid.Bool().Draw(t, "runlead") {
+				return ast.Seq(ast.Quant(s.smallSet(t), 1, -1, false), body)
+			}
+			return body
+		}
 		n := rapid.IntRange(2, 4).Draw(t, "nalt")
 		for i := 0; i < n; i++ {
 			a.Kids = append(a.Kids, s.accStr(t, 2, 4))
